@@ -113,6 +113,8 @@ def run(ctx):
             # a channel named more than once in the request is still converted with its own curve, once
             base = [covered[int(i)] for i in rng.permutation(k)[:int(rng.integers(1, k + 1))]]
             reqs.append(base + [base[0]] + ([base[-1]] if rng.random() < 0.5 else []))
+            if pi == 0:
+                reqs.append([])         # an empty request (a filtered channel list that came out empty) converts nothing
             for req in reqs:
                 rq = None if req is None else spell(rng, s, req)
                 if rq is not None and len(rq) == 1 and rng.random() < 0.5:
